@@ -422,6 +422,18 @@ func checkC16(x *X, c *Case, strict bool) *Outcome {
 			// (the same escaping panic included), an exhausted one ends in the budget error,
 			// returned or escaping, unless a code block panicked first.
 			o.Tags = append(o.Tags, "recover_off")
+			if !memo && !hasLR {
+				// the reference under the same budget and Recover(false) says whether a panic
+				// escapes and which one (the real "unbounded" run above is no oracle for that: it
+				// runs under the safety budget of the harness)
+				rb := refpeg.Eval(g, c.Input, refOpts(&cc))
+				if !rb.OverBudget && knownExclusion(x, rb, strict) == "" {
+					if rb.Panicked != resp.Panicked || (rb.Panicked && !samePanic(rb.PanicVal, resp.PanicVal, ctx)) {
+						o.Viol = viol(pk, &cc, "recover_off_outcome", fmt.Sprintf("MaxExpressions(%d), Recover(false): want escaping panic=%v (%v), got %v (%v)", budget, rb.Panicked, rb.PanicVal, resp.Panicked, resp.PanicVal), describeRef(rb), describeResp(resp))
+						return o
+					}
+				}
+			}
 			if uint64(len(ctx.Events)) > budget {
 				o.Viol = viol(pk, &cc, "budget_exceeded", fmt.Sprintf("MaxExpressions(%d) but %d code blocks ran", budget, len(ctx.Events)), "", describeResp(resp))
 				return o
